@@ -454,9 +454,58 @@ func init() {
 		return tuple{[]value{o}, nilError()}
 	}
 
+	st["encoding/json.NewEncoder"] = func(fr *frame, args []value) value {
+		var cell value = &opaque{kind: "jsonenc", data: map[string]value{"w": args[0]}}
+		return &cell
+	}
+	st["(*encoding/json.Encoder).Encode"] = func(fr *frame, args []value) value {
+		enc := (*args[0].(*value)).(*opaque)
+		x := args[1].(iface)
+		o := &opaque{kind: "json", data: map[string]value{}}
+		if m, ok := x.v.(*amap); ok && m != nil {
+			for _, e := range m.entries {
+				if k, ok := e.key.(string); ok {
+					o.data[k] = e.val
+				}
+			}
+		} else {
+			o.data["$value"] = x.v
+		}
+		if w, ok := enc.data["w"].(iface); ok && w.t != nil {
+			fr.i.callMethodByName(w, "Write", []value{o})
+		}
+		return nilError()
+	}
+
 	// ---------------- time ----------------
 	st["time.Now"] = func(fr *frame, args []value) value { return fr.i.p.timeNow() }
 	st["time.runtimeNano"] = func(fr *frame, args []value) value { return int64(1) }
+	newTickChan := func(fr *frame, n int) *schan {
+		ch := fr.i.p.makeChan(1)
+		ch.ticker = true
+		ch.ticksLeft = n
+		return ch
+	}
+	tickBound := func(fr *frame) int {
+		if v, ok := fr.i.p.ex.cfg.Params["TICKS"]; ok {
+			return v
+		}
+		return 3
+	}
+	st["time.NewTicker"] = func(fr *frame, args []value) value {
+		var cell value = structure{newTickChan(fr, tickBound(fr)), true}
+		return &cell
+	}
+	st["(*time.Ticker).Stop"] = func(fr *frame, args []value) value {
+		s := (*args[0].(*value)).(structure)
+		if ch, ok := s[0].(*schan); ok && ch != nil {
+			ch.stopped = true
+		}
+		return nil
+	}
+	st["(*time.Ticker).Reset"] = func(fr *frame, args []value) value { return nil }
+	st["time.After"] = func(fr *frame, args []value) value { return newTickChan(fr, 1) }
+	st["time.Tick"] = func(fr *frame, args []value) value { return newTickChan(fr, tickBound(fr)) }
 	st["time.Since"] = func(fr *frame, args []value) value {
 		fr.i.p.abort("unsupported", "time.Since")
 		return nil
@@ -609,6 +658,9 @@ func init() {
 			return nil
 		}
 		meth := name[dot+2:]
+		if i := strings.Index(meth, "["); i >= 0 {
+			meth = meth[:i]
+		}
 		return func(fr *frame, args []value) value {
 			recvT := fr.fn.Signature.Recv().Type().(*types.Pointer).Elem()
 			st := recvT.Underlying().(*types.Struct)
